@@ -9,7 +9,9 @@ RULE = ('metamorphic groups (E, permutations of E, E with repeated edges) x the 
         'only) and each other; root has no parents; every other node is a descendant of the root; with >= 2 parentless terms the '
         'root is owl:Thing with exactly those children. Exhaustive: all permutations of every <= 4-edge list over <= 4 positions, '
         'every single repeat; random larger lists with shuffles and multisets of repeats; 1..k parentless terms. Non-trivial: the '
-        'variant differs from the base list (re-ordered or repeated) or the graph has >= 2 parentless terms.')
+        'variant differs from the base list (re-ordered or repeated) or the graph has >= 2 parentless terms. Queries = the four '
+        'traversals for every node, the four predicates over ordered node pairs, is_leaf. Every list is also built by ONE long-lived '
+        'factory instance per class (as the loaders\' default factories are) and must give the answers of a fresh factory.')
 
 THEOREM = 'Hpv.Props.C02.*'
 
@@ -18,10 +20,20 @@ def shape_queries(edges):
     """structure + all answers, for a TermId argument"""
     _, TermId, _, _ = gl._hp()
     qs = [(['nodes'], ['nodes']), (['root'], ['root'])]
-    for v in gl.nodes_of(edges) + ['owl:Thing']:
+    nodes = gl.nodes_of(edges)
+    for v in nodes + ['owl:Thing']:
         t = TermId.from_curie(v)
         for q in gl.QS:
             qs.append((['q', q, v, False], ['q', q, t, False]))
+    # "the result of any query": the predicates and the leaf test as well (all ordered pairs on small graphs, a stride on larger ones)
+    pairs = [(a, b) for a in nodes for b in nodes]
+    if len(pairs) > 40:
+        pairs = pairs[::max(1, len(pairs) // 40)]
+    for a, b in pairs:
+        for p in gl.PREDS:
+            qs.append((['pred', p, a, b], ['pred', p, TermId.from_curie(a), TermId.from_curie(b)]))
+    for v in nodes:
+        qs.append((['leaf', v], ['leaf', TermId.from_curie(v)]))
     return qs
 
 
@@ -121,14 +133,29 @@ def cross_variant_check(ctx, cases):
     base = {}
     for c in cases:
         key = (c['factory'], tuple(c['model_edges']))
-        try:
-            g = gl.build_impl(c['factory'], c['edges'])
-            ans = [gl.impl_answer(g, iq) for _, iq in c['queries']]
-            for a, (wq, _) in zip(ans, c['queries']):
-                if wq[0] == 'nodes' and 'ok' in a:
-                    a['ok'] = sorted(a['ok'])
-        except Exception as e:  # noqa
-            ans = f'build raises {type(e).__name__}'
+
+        def answers(shared):
+            try:
+                g = gl.build_impl(c['factory'], c['edges'], shared=shared)
+                out = [gl.impl_answer(g, iq) for _, iq in c['queries']]
+                for a, (wq, _) in zip(out, c['queries']):
+                    if wq[0] == 'nodes' and 'ok' in a:
+                        a['ok'] = sorted(a['ok'])
+                return out
+            except Exception as e:  # noqa
+                return f'build raises {type(e).__name__}'
+        ans = answers(False)
+        # the same list through ONE long-lived factory instance per class, which has built all the earlier (different) graphs of
+        # this run: the graph depends on the edge list only, not on what the factory built before
+        reused = answers(True)
+        ctx.count('graphs_built_by_a_reused_factory')
+        if reused != ans:
+            ctx.violation(f'factory-history:{c["factory"]}',
+                          {'case': {'kind': 'factory-history', 'factory': c['factory'], 'edges': c['edges'],
+                                    'built_before_by_the_same_factory': gl._SHARED_HISTORY.get(c['factory'], [])[:-1]},
+                           'impl_reused_factory': reused if isinstance(reused, str) else [a for a, b in zip(reused, ans) if a != b][:3],
+                           'impl_fresh_factory': ans if isinstance(ans, str) else [b for a, b in zip(reused, ans) if a != b][:3],
+                           'theorem': 'Hpv.Props.C02.invariance (the graph is a function of the edge list)'})
         if c['variant'] == 'base':
             base[key] = ans
         elif key in base and base[key] != ans:
@@ -194,7 +221,17 @@ def run(ctx):
 def replay(ctx, data):
     c = data['case']
     edges = [tuple(e) for e in c['edges']]
-    if c['kind'] == 'meta':
+    if c['kind'] == 'factory-history':
+        gl._SHARED_FACTORIES.pop(c['factory'], None)
+        for prev in c['built_before_by_the_same_factory']:
+            try:
+                gl.build_impl(c['factory'], [tuple(e) for e in prev], shared=True)
+            except Exception:  # noqa
+                pass
+        cases = [{'factory': c['factory'], 'edges': edges, 'model_edges': edges, 'queries': shape_queries(edges), 'variant': 'base'}]
+        evaluate(ctx, cases, 'replay')
+        cross_variant_check(ctx, cases)
+    elif c['kind'] == 'meta':
         base = [tuple(e) for e in c['base_edges']]
         qs = shape_queries(base)
         cases = [{'factory': c['factory'], 'edges': base, 'model_edges': base, 'queries': qs, 'variant': 'base'},
